@@ -19,6 +19,7 @@ func init() {
 			Assumptions: []string{"keyid.Unmarshal's meaning of a decodable KeyID is C05's", "a lookup in a nil map yields the empty string (Go semantics, modelled)"},
 			Trusted:     []string{"go/packages", "go/types", "go/ssa"},
 			RuleDoc: map[string]string{
+				"R9.state":      "no memory of earlier calls: on the call tree only frozen package-level variables are touched (known exceptions listed with reasons), and no package-level object is handed out",
 				"R1.gettype":    "complete truth table of GetType vs the statement's cascade; atoms used are only the stated ones",
 				"R2.labels":     "label table exhaustive and distinct; label composition",
 				"R3.principals": "truth table of GetPrincipals over all type constants; suffix helpers append the right constant to every element",
@@ -32,6 +33,7 @@ func init() {
 const certPkg = "sshutils/cert"
 
 func runC19(c *Ctx) {
+	stateRule(c, "R9.state", []*ssa.Function{c.w.Func(certPkg, "GetType"), c.w.Func(certPkg, "Label"), c.w.Func(certPkg, "GetPrincipals")}, knownState)
 	w := c.w
 	c.WithRules(map[string]string{"R2.truth": "R0.decodes", "R3.gate": "R0.decodes"}, func() { keyidDecodeRules(c) })
 	p := w.ByPath[RepoMod+"/"+certPkg]
